@@ -657,7 +657,9 @@ def get_sort(node):
 
     if node.id in __get_sort_cache:
         return __get_sort_cache[node.id]
-    if node in __get_sort_cache:
+    # equal compound terms have equal sorts; a leaf may be an index in one
+    # place and a term in another
+    if not node.is_leaf() and node in __get_sort_cache:
         return __get_sort_cache[node]
     try:
         sort = _get_sort_aux(node)
@@ -667,7 +669,8 @@ def get_sort(node):
         # nested too deeply for the recursive inference: unknown sort
         sort = None
     __get_sort_cache[node.id] = sort
-    __get_sort_cache[node] = sort
+    if not node.is_leaf():
+        __get_sort_cache[node] = sort
     return sort
 
 
